@@ -182,3 +182,45 @@ class DtToEpochMonotone:
             e, e2 = c.inline(D2E, mk_dt(us, tz)), c.inline(D2E, mk_dt(us2, tz))
             nm = 'naive' if tz is None else 'UTC'
             yield 'datetime->epoch is monotone (%s)' % nm, z3.Implies(us <= us2, to_z3(e) <= to_z3(e2))
+
+
+@contract
+class UtcNow:
+    qualname = 'csep.utils.time_utils.utc_now_datetime'
+    case = 'clock'
+
+    def params(c):
+        return {}
+
+    def ensures(c, r):
+        yield 'utc-aware datetime', z3.BoolVal(_is_dt(r) and r.tz == 'UTC')
+
+    def result(c):
+        return mk_dt(c.ctx.fresh_int('now_us'), 'UTC')
+
+
+INSTANT_MS = z3.Function('instant_ms', z3.IntSort(), z3.IntSort())   # token id -> the instant the time string denotes (ms)
+
+
+@contract
+class StrptimeToEpoch:
+    """assumed-by-composition: parse_string_format + strptime + datetime_to_utc_epoch; used modularly by filter().
+    Its own proof needs the string layer (bounded only)."""
+    qualname = 'csep.utils.time_utils.strptime_to_utc_epoch'
+    case = 'time string token'
+    modular_only = True
+
+    def params(c):
+        return dict(time_string='<D> <T>')
+
+    def accepts(c, time_string, format=None):
+        return isinstance(time_string, str)
+
+    def ensures(c, r, time_string, format=None):
+        return []
+
+    def result(c, time_string, format=None):
+        toks = c.ctx.ghost.setdefault('time_tokens', {})
+        if time_string not in toks:
+            toks[time_string] = INSTANT_MS(len(toks))
+        return toks[time_string]
